@@ -22,11 +22,15 @@ TEXT = {
             "rounding wastes less than one unit. Correspondence: addresses against an independent greedy layout in the harness, "
             "memory_consumption against the ledger's byte counts."),
 }
-TEXT["C13"] = ("Theorems on the comparison model as coded (run tables split at padding, three-iterator std::equal on spans, size check): "
-               "!= is negation; on the element-wise path equality holds exactly for equal field values (given equal field sizes), is "
-               "reflexive and symmetric; vectors of different size are never equal; empty-vector cases. PARTIAL on the proof side: "
-               "soundness of the memcmp-run path (injectivity of the byte encoding across a run) is not yet a theorem; it is covered by the "
-               "correspondence run (all six operators on every operand kind over a two-value domain, junk-filled memory, oracle monitor).")
+TEXT["C13"] = ("Theorems on the comparison model as coded (run tables split at padding, FixedSize sizes compared first, span equality, size "
+               "and fixed-size checks of the vector paths): for EVERY parameter list reference/element equality with equal field sizes holds "
+               "exactly for equal field values (the little-endian object representation is injective on values that fit the type, a memcmp "
+               "over a run decides exactly the field-wise equality over the run, the run table covers every field exactly once), FixedSize "
+               "fields of different sizes are never equal in either direction, equality is reflexive and symmetric, != is the negation; "
+               "vectors on the element-wise path are equal exactly when they hold the same number of elements with equal field sizes and "
+               "values; on the whole-buffer path different fixed sizes are never equal. PARTIAL: on the whole-buffer path 'equal bytes = equal "
+               "elements for equal fixed sizes' is not a theorem. Correspondence: all six operators on every operand kind over a two-value "
+               "domain, vectors built with different fixed sizes, junk-filled memory, oracle monitor.")
 TEXT["C14"] = ("Theorems: >, <=, >= are defined from < as the property states; element < (a conjunction of strict orders over "
                "parameters/memcmp runs) is irreflexive, asymmetric and transitive for every parameter list; vector < is irreflexive and "
                "asymmetric on both code paths, a strict weak order on the whole-buffer path, and the lexicographical comparison under "
